@@ -11,7 +11,7 @@ C17 (and the registration-table half of C06): SNMP application types.
 import z3
 
 from pyvc import core, stdlib
-from pyvc.core import And, Or, Not, Implies, lift_bool, Undecided, SInt, zint
+from pyvc.core import And, Or, Not, Implies, lift_bool, lift_int, Undecided, SInt, zint
 from pyvc.objects import Obj, NT, PyExc, PDict, PyClass, Builtin, BoundMethod
 from pyvc.vu import VU
 from .common import oname, get_cls, exc_is, get_func
@@ -197,9 +197,80 @@ class RegistrationTable(VU):
 
 
 def units(tier):
-    return [CounterInit("Counter", 32), CounterInit("Counter64", 64), TicksFromTimedelta(), TicksFromInt(),
+    return units_codec(tier) + [CounterInit("Counter", 32), CounterInit("Counter64", 64), TicksFromTimedelta(), TicksFromInt(),
             TicksPythonize(), IpRoundTrip(), RegistrationTable("C17")]
 
 
 def units_table_c06(tier):
     return [RegistrationTable("C06")]
+
+
+class OctList:
+    """bytes built from a list of (symbolic) octet values"""
+
+    def __init__(self, octs):
+        self.octs = list(octs)
+
+
+class IntegerCodec(TypesBase):
+    """x690 Integer.encode_raw / decode_raw verified FROM THE SITE-PACKAGES SOURCE: the two loops of encode_raw are unrolled
+    to the operand width (|v| < 2^72 covers Counter64 and every SNMP integer); round trip and minimal two's complement."""
+    label = "proved (|v| < 2^72: loops unrolled to the operand width, unwinding complete)"
+
+    def __init__(self, cls_spec, signed):
+        self.cls_spec, self.signed = cls_spec, signed
+        self.target = "x690.types:Integer.encode_raw"
+        self.functions = ("x690.types:Integer.encode_raw", "x690.types:Integer.decode_raw")
+        self.props = ("C17", "C06", "C05")
+        self.name = "x690 Integer codec as %s[%s]" % (cls_spec.split(":")[1], "|v| < 2^72" if signed else "0 <= v < 2^72")
+
+    def setup(self, rt, interp):
+        TypesBase.setup(self, rt, interp)
+        interp.unroll_limit = 16
+        rt.hooks["bytes(list)"] = lambda i, items: OctList(items)
+        rt.len_hooks["OctList"] = lambda rt_, i, v: len(v.octs)
+        rt.getslice_hooks["OctList"] = lambda rt_, i, c, lo, hi, st: c if (lo, hi, st) == (None, None, None) else (_ for _ in ()).throw(Undecided("slice"))
+        stdlib.TYPE_NAMES["bytes"] = tuple(set(stdlib.TYPE_NAMES["bytes"]) | {OctList})
+
+        def from_bytes(i, data, order_, signed):
+            if not isinstance(data, OctList) or order_ != "big":
+                raise Undecided("int.from_bytes on %r" % (data,))
+            n = len(data.octs)
+            total = z3.IntVal(0)
+            for k, b in enumerate(data.octs):
+                total = total + zint(b) * (256 ** (n - 1 - k))
+            if signed and n:
+                total = z3.If(zint(data.octs[0]) >= 128, total - 256 ** n, total)
+            return lift_int(total)
+        rt.hooks["int.from_bytes"] = from_bytes
+
+    def run(self, interp):
+        ctx, rt = interp.ctx, self.rt
+        v = ctx.fresh_int("v")
+        lim = 2 ** 72
+        ctx.assume(And(v < lim, v >= (-lim if self.signed else 0)))
+        cls = get_cls(rt, interp, self.cls_spec)
+        obj = Obj(cls, {"pyvalue": v, "_raw_bytes": b""})
+        enc = interp.call(rt.getattr(interp, obj, "encode_raw"), [], {})
+        ok = isinstance(enc, OctList) and len(enc.octs) >= 1
+        for p in self.props:
+            ctx.check(oname(p, self.target, "ensures", "content-is-at-least-one-octet"), ok)
+        if not ok:
+            return "?"
+        n = len(enc.octs)
+        conds = [And(b >= 0, b <= 255) if not isinstance(b, int) else 0 <= b <= 255 for b in enc.octs]
+        # minimal two's complement: n is the least number of octets with -2^(8n-1) <= v < 2^(8n-1)
+        fits = And(v >= -(2 ** (8 * n - 1)), v < 2 ** (8 * n - 1))
+        minimal = True if n == 1 else Or(v < -(2 ** (8 * (n - 1) - 1)), v >= 2 ** (8 * (n - 1) - 1))
+        dec = get_func(rt, interp, "x690.types:Integer.decode_raw")
+        back = interp.call(BoundMethod(dec, cls) if not isinstance(dec, BoundMethod) else dec, [enc], {})
+        for p in self.props:
+            ctx.check(oname(p, self.target, "ensures", "octets-in-range"), And(*conds))
+            ctx.check(oname(p, self.target, "ensures", "minimal-twos-complement-content"), And(fits, minimal))
+            ctx.check(oname(p, "x690.types:Integer.decode_raw", "ensures", "decode(encode(v))==v"), interp.eq(back, v))
+        return "returns"
+
+
+def units_codec(tier):
+    return [IntegerCodec("x690.types:Integer", True), IntegerCodec("puresnmp.types:Counter64", False),
+            IntegerCodec("puresnmp.types:Gauge", False), IntegerCodec("puresnmp.types:TimeTicks", False)]
